@@ -200,8 +200,15 @@ def _gen_module(rnd, torch, OM, depth, kinds):
         pass
 
     m = M()
-    for name in rnd.sample(ATTRS, rnd.randint(1, 6)):
+    names = rnd.sample(ATTRS, rnd.randint(1, 6))
+    for name in names:
         m.__dict__[name] = _gen_value(rnd, torch, OM, depth, kinds)
+    # DAG-shaped graphs: the same container / tensor object referenced from two places of one module
+    if len(names) >= 2 and rnd.random() < 0.3:
+        src = m.__dict__[names[0]]
+        if not isinstance(src, (int, float, str, bytes, bool, type(None))):
+            m.__dict__[names[1]] = src if rnd.random() < 0.5 else [src, _rand_tensor(rnd, torch)]
+            kinds.add("shared_reference")
     return m
 
 
@@ -259,10 +266,11 @@ def _module_batch(case, torch):
         counters["module_tensors_checked"] += len(ta)
         desc = {"kinds": sorted(kinds_a), "n_tensors": len(ta)}
         # (1) state dict contains every reachable tensor
-        sd_keep = a.state_dict(keep_vars=True)
+        snt = t % 5 == 4  # also with non-tensor storage switched on (same tensors must be present, loads must still work)
+        sd_keep = a.state_dict(keep_vars=True, store_non_tensors=snt)
         if sorted(id(x) for x in _sd_leaves(sd_keep, torch)) != sorted(id(x) for x in ta):
             raise Violation("state_dict(keep_vars=True) does not hold exactly the reachable tensor objects", **desc)
-        sd = a.state_dict()
+        sd = a.state_dict(store_non_tensors=snt)
         if sorted(_key(x) for x in _sd_leaves(sd, torch)) != sorted(_key(x) for x in ta):
             raise Violation("state_dict() misses (or duplicates) a reachable tensor", **desc)
         if any(x.requires_grad for x in _sd_leaves(sd, torch)):
@@ -274,7 +282,7 @@ def _module_batch(case, torch):
         payload = copy.deepcopy(sd)
         if t % 2:
             payload = unflatten(flatten(payload))
-        b.load_state_dict(payload)
+        b.load_state_dict(payload, store_non_tensors=snt)
         tb2 = list(_tensors(b, OM, torch))
         if [(id(x), x.untyped_storage().data_ptr() if x.numel() else 0) for x in tb2] != ids:
             raise Violation("load_state_dict replaced tensor objects instead of copying in place", **desc)
@@ -282,7 +290,7 @@ def _module_batch(case, torch):
             if x.shape != y.shape or x.dtype != y.dtype or not torch.equal(x.detach(), y.detach()):
                 raise Violation("after load_state_dict a tensor of the twin differs from the source", src=repr(x)[:100], dst=repr(y)[:100], via_flatten=bool(t % 2), **desc)
         if len(ta) >= 2 and len(kinds_a) >= 2:
-            sigs.add(("module", tuple(sorted(kinds_a)), min(len(ta).bit_length(), 5), bool(t % 2)))
+            sigs.add(("module", tuple(sorted(kinds_a)), min(len(ta).bit_length(), 5), bool(t % 2), snt))
         if sample is None and len(ta) >= 3:
             sample = {"family": "module", "kinds": sorted(kinds_a), "n_tensors": len(ta), "state_dict_keys": repr(sd)[:300]}
     return {"counters": counters, "sigs": sorted(sigs), "sample": sample}
